@@ -12,8 +12,11 @@ package drpcmigrate
 
 //@ func (*listener).Conns
 //@   inline
+// The connection channel is unbuffered: a send on it completes only when an Accept takes the
+// connection, which is what "delivered" means in routeConn's contract.
 //@ func newListener
-//@   inline
+//@   props C16
+//@   ensures [C16.rendezvous] result != nil && result.conns != nil && result.done != nil && chancap(result.conns) == 0 && !closed(result.done) && result.addr == addr
 
 // routeConn: every accepted connection is either closed or sent to exactly one listener, on every
 // path; the consumed prefix is replayed (wrapped) only when no route matched, with the very bytes read.
